@@ -98,13 +98,13 @@ def check_finalize_twins_native(p, profile='debug'):
 def check(run):
     funcs, info = engine.load_mir('ibig')
     run.mir_info.append(info)
-    BR.check_face_loops(run, funcs, 'C13')
-    BR.check_cell_loop(run, funcs, 'C13')       # cell integrals through the integrator see the whole decomposition (volume / centroid as stored)
-    none_vs_all_true(run, funcs)
-    twin_face_integrals(run, funcs)
-    BR.check_normalisation(run, funcs, 'C13')
-    BR.check_integrator_closures(run, funcs, 'C13')
-    SR.integrator_with_faces(run, funcs, 'C13')   # Voronoi::from(&integrator.with_faces()) sees the same integrator
+    run.guard(BR.check_face_loops, funcs, 'C13')
+    run.guard(BR.check_cell_loop, funcs, 'C13')       # cell integrals through the integrator see the whole decomposition (volume / centroid as stored)
+    run.guard(none_vs_all_true, funcs)
+    run.guard(twin_face_integrals, funcs)
+    run.guard(BR.check_normalisation, funcs, 'C13')
+    run.guard(BR.check_integrator_closures, funcs, 'C13')
+    run.guard(SR.integrator_with_faces, funcs, 'C13')   # Voronoi::from(&integrator.with_faces()) sees the same integrator
     run.assume('cells_map!/filter_map/zip/flatten/collect are order preserving (std semantics; modelled positionally)')
     run.assume('sequential build: rayon variants of the same closures are not encoded (see C09)')
     return run.finish(LEVEL, EXPLANATION, trusted=['rustc -Zunpretty=mir', 'z3 5.1.0 / 4.8.12, cvc5 1.0.3', 'std Option/Vec/iterator models of mirsym'])
